@@ -25,7 +25,11 @@ RULE = ("(a) one instruction of each of the 46 supported mnemonics (round-robin)
         "accesses, lock-step up to a step bound. Oracle after every step(): 32 registers, pc mod 2^32, exit code, "
         "output delta (parse-back), stored bytes, done-ness, fault address. non-trivial = the step writes a non-zero "
         "register / stores / transfers control / prints / exits / faults (for programs: >=3 such steps incl. one "
-        "memory or control step); distinct = hash(case)")
+        "memory or control step); distinct = hash(case)"
+        ' Deterministic families present under every seed: per-mnemonic boundary/aliasing product, loaded-value grid (e'
+        'very boundary value of the access width at every byte offset), producer x consumer pair product; programs incl'
+        'ude the same load repeated around a store through a negative (x0 - k) address; between steps the harness looks'
+        ' at the byte cells without calling the read API.')
 ASSUMPTIONS = [
     "CSR*, FENCE, EBREAK excluded as the property states",
     "program counter compared modulo 2^32 (a Python int outside [0,2^32) is a representation)",
